@@ -178,3 +178,24 @@ Theorem C38_model_passes_monitor_small_scope_partial :
   forall c, In c small_inputs -> check_case c (run_case c) = true.
 Proof. apply forallb_forall. exact model_passes_monitor_small_scope. Qed.
 Print Assumptions C38_model_passes_monitor_small_scope_partial.
+
+(* add_callback's thread decision: plain call_soon only when the caller is running THIS loop ... *)
+Theorem C38_add_callback_uses_call_soon_only_on_its_own_loop :
+  forall c, add_callback_path c = PCallSoon <-> c = CSameLoop.
+Proof. exact add_callback_path_spec. Qed.
+Print Assumptions C38_add_callback_uses_call_soon_only_on_its_own_loop.
+
+(* ... so every add_callback from any other thread -- one running its own event loop included -- onto a loop that is
+   idle in select() with no timers is delivered without any further wake-up: all run, once each, in arrival order,
+   and the ready queue is empty afterwards.  (Atomic appends; real preemption is a harness stress check.) *)
+Theorem C38_cross_thread_add_callback_is_delivered_without_further_wakeup :
+  forall calls, (forall ca, In ca calls -> fst ca <> CSameLoop) ->
+    x_ran (x_deliver calls) = map snd calls /\ x_ready (x_deliver calls) = [].
+Proof. exact cross_thread_add_callback_delivered. Qed.
+Print Assumptions C38_cross_thread_add_callback_is_delivered_without_further_wakeup.
+
+(* with plain call_soon instead (seeded change C38_3) the callback is stranded in the sleeping loop's queue *)
+Theorem C38_call_soon_from_another_thread_would_strand_the_callback :
+  forall a, let l := x_settle (x_add_via PCallSoon a x_idle) in x_ran l = [] /\ x_ready l = [a].
+Proof. exact call_soon_from_another_thread_is_not_delivered. Qed.
+Print Assumptions C38_call_soon_from_another_thread_would_strand_the_callback.
